@@ -381,7 +381,10 @@ PROPS["C05"] = Prop(
 
 PROPS["C06"] = Prop(
     "C06",
-    [Stage("asan", "c06_xmlfuzz", "asan", quick=16000, thorough=800000, per_worker_env=xml_backend_env)],
+    # allocations above 256 MiB fail (allocator_may_return_null): a document asking for a 10^5 x 10^5 matrix is refused by malloc as it
+    # would be on a real machine, instead of costing seconds of shadow-memory poisoning that the CPU limit would blame on hwloc
+    [Stage("asan", "c06_xmlfuzz", "asan", quick=16000, thorough=800000, per_worker_env=xml_backend_env,
+           env={"ASAN_OPTIONS_EXTRA": "max_allocation_size_mb=256"})],
     rule=("one input per case: a base document (corpus file 40%, v3 export of a small annotated topology 30%, v2-format export 20%, "
           "diff document 10%) with 0 (8%), 1 (69%) or 2-3 structure-aware mutations (attribute value replaced by boundary/garbage "
           "values incl. attribute-specific lists, tweaked, dropped, duplicated; element dropped, duplicated, moved, renamed; text "
